@@ -3,6 +3,7 @@ package plan
 import (
 	"fmt"
 	"math/rand"
+	"strings"
 )
 
 // Generators maps a property id to its plan generator. A generator is a pure
@@ -340,8 +341,41 @@ func genProduce(prop string, seed uint64) *Plan {
 }
 
 func init() {
-	for _, p := range []string{"C01", "C02", "C03", "C14", "C18"} {
+	for _, p := range []string{"C01", "C02", "C03", "C18"} {
 		p := p
 		Generators[p] = func(seed uint64) *Plan { return genProduce(p, seed) }
+	}
+	// C14 covers both sides: produce hooks in the produce scenario, fetch
+	// hooks (and the fetch gauges) in the direct-consumer scenarios, with
+	// callbacks that take time.
+	Generators["C14"] = func(seed uint64) *Plan {
+		r := rand.New(rand.NewSource(int64(seed ^ 0xc14)))
+		var p *Plan
+		switch x := r.Intn(100); {
+		case x < 50:
+			p = genProduce("C14", seed)
+		case x < 75:
+			p = genConsume("C14", seed)
+		default:
+			p = genC39(seed)
+			p.Prop = "C14"
+		}
+		if p.Scenario == "consume" && r.Intn(100) < 50 {
+			// a second goroutine polling the same client (polls may be
+			// concurrent; only the C14 oracles judge these plans)
+			for _, a := range p.Actors {
+				if strings.HasPrefix(a.Name, "poll.") {
+					b := Actor{Name: "poll2." + a.Client, Client: a.Client, Ops: append([]Op(nil), a.Ops...)}
+					p.Actors = append(p.Actors, b)
+				}
+			}
+			if p.K["nbroker"] < 2 {
+				p.K["nbroker"] = 3
+			}
+		}
+		p.K["cb_yield_pct"] = []int64{0, 10, 40}[r.Intn(3)]
+		p.K["cb_sleep_pct"] = []int64{0, 5, 20, 50}[r.Intn(4)]
+		p.K["cb_sleep_us_max"] = []int64{3000, 20000}[r.Intn(2)]
+		return p
 	}
 }
